@@ -23,15 +23,19 @@ type Propagation struct {
 }
 
 type propCmd struct {
-	db   int
-	args [][]byte
+	db     int
+	args   [][]byte
+	origin string
+	conn   int
 }
 
 // PropCmd is one appended command with the offset at which it ends.
 type PropCmd struct {
-	DB   int
-	Args [][]byte
-	End  int64
+	DB     int
+	Args   [][]byte
+	End    int64
+	Origin string // CLIENT SETNAME of the connection whose request caused the command ("" for the stream's own SELECTs)
+	Conn   int
 }
 
 func NewPropagation(startOffset int64, flavor7 bool) *Propagation {
@@ -53,13 +57,13 @@ func (p *Propagation) endTxn(s *Server) {
 	}
 	wrap := !(p.Flavor7 && len(cmds) == 1)
 	if wrap {
-		p.appendLocked(cmds[0].db, [][]byte{[]byte("MULTI")})
+		p.appendLocked(cmds[0].db, [][]byte{[]byte("MULTI")}, cmds[0].origin, cmds[0].conn)
 	}
 	for _, c := range cmds {
-		p.appendLocked(c.db, c.args)
+		p.appendLocked(c.db, c.args, c.origin, c.conn)
 	}
 	if wrap {
-		p.appendLocked(cmds[len(cmds)-1].db, [][]byte{[]byte("EXEC")})
+		p.appendLocked(cmds[len(cmds)-1].db, [][]byte{[]byte("EXEC")}, cmds[0].origin, cmds[0].conn)
 	}
 	p.cond.Broadcast()
 }
@@ -72,14 +76,14 @@ func (p *Propagation) emit(s *Server, db int, args [][]byte) {
 		cp[i] = append([]byte{}, a...)
 	}
 	if p.inTxn {
-		p.txn = append(p.txn, propCmd{db, cp})
+		p.txn = append(p.txn, propCmd{db, cp, s.curOrigin, s.curConn})
 		return
 	}
-	p.appendLocked(db, cp)
+	p.appendLocked(db, cp, s.curOrigin, s.curConn)
 	p.cond.Broadcast()
 }
 
-func (p *Propagation) appendLocked(db int, args [][]byte) {
+func (p *Propagation) appendLocked(db int, args [][]byte, origin string, conn int) {
 	if db != p.curDB {
 		p.curDB = db
 		sel := [][]byte{[]byte("SELECT"), itob(int64(db))}
@@ -87,7 +91,7 @@ func (p *Propagation) appendLocked(db int, args [][]byte) {
 		p.Cmds = append(p.Cmds, PropCmd{DB: db, Args: sel, End: p.base + int64(len(p.buf))})
 	}
 	p.buf = append(p.buf, resp.Cmd(args...)...)
-	p.Cmds = append(p.Cmds, PropCmd{DB: db, Args: args, End: p.base + int64(len(p.buf))})
+	p.Cmds = append(p.Cmds, PropCmd{DB: db, Args: args, End: p.base + int64(len(p.buf)), Origin: origin, Conn: conn})
 }
 
 // End returns the current end offset of the stream.
